@@ -68,7 +68,9 @@ Qed.
 Lemma tv_ttbl_root s t : tv (ttbl s t) [] = map (tline s) (tv t []).
 Proof. apply (proj2 (proj2 (tv_ttbl s)) t []). Qed.
 
-(* ---- trees whose values are plain (tables made by dotted keys allowed) ------------------------------------------- *)
+(* ---- trees whose values satisfy P and are not inline tables implied by dotted keys (tables made by dotted keys allowed) ---- *)
+Section Shape.
+Variable P : value -> bool.
 Fixpoint dsh_tbl (t : tbl) : bool :=
   match t with
   | Tbl items _ _ _ _ _ =>
@@ -77,7 +79,7 @@ Fixpoint dsh_tbl (t : tbl) : bool :=
 with dsh_item (it : item) : bool :=
   match it with
   | INone => false
-  | IValue v => vplain v
+  | IValue v => P v && undot v
   | ITable sub => dsh_tbl sub
   | IAot ts _ => (fix goa (l : list tbl) : bool := match l with [] => true | sub :: tl => negb (t_dotted sub) && dsh_tbl sub && goa tl end) ts
   end.
@@ -90,7 +92,7 @@ Qed.
 Lemma dsh_item_aot ts sp : dsh_item (IAot ts sp) = forallb (fun sub => negb (t_dotted sub) && dsh_tbl sub) ts.
 Proof. cbn [dsh_item]. induction ts as [|t tl IH]; [reflexivity|]. cbn [forallb]. rewrite <- IH. reflexivity. Qed.
 
-Definition pvals (l : list (list key * value)) : Prop := Forall (fun kv : list key * value => vplain (snd kv) = true) l.
+Definition pvals (l : list (list key * value)) : Prop := Forall (fun kv : list key * value => P (snd kv) = true /\ undot (snd kv) = true) l.
 
 Lemma dsh_tv :
   (forall v : value, True)
@@ -99,7 +101,7 @@ Lemma dsh_tv :
 Proof.
   apply tree_ind3; try (intros; exact I).
   - intros; constructor.
-  - intros v _ p Hv. constructor; [exact Hv|constructor].
+  - intros v _ p Hv. cbn [dsh_item] in Hv. apply andb_true_iff in Hv. constructor; [exact Hv|constructor].
   - intros t IH p Hs. cbn [tvit]. destruct (t_dotted t); [apply IH, Hs|constructor].
   - intros; constructor.
   - intros items d im dt pos sp IH p Hs. rewrite tv_eq. rewrite dsh_tbl_eq in Hs. cbn [t_items] in *. rewrite forallb_forall in Hs.
@@ -136,6 +138,7 @@ Proof.
   unfold sub_ents. rewrite Forall_forall. intros e He. apply in_flat_map in He as ([k it] & Hk & He). cbn [fst snd app] in He.
   pose proof (proj1 (proj2 ents_dsh) it [k] (Hs _ Hk) ltac:(discriminate)) as H. rewrite Forall_forall in H. apply H, He.
 Qed.
+End Shape.
 
 (* ---- what one table prints ---------------------------------------------------------------------------------- *)
 Definition dline (s : bytes) (kv : list key * value) : bytes :=
@@ -154,12 +157,12 @@ Definition detxt (s : bytes) (e : entry) : bytes :=
          ++ dtext s t
   end.
 
-Lemma children_dsh s t : dsh_tbl t = true ->
+Lemma children_dsh P s t : dsh_tbl P t = true ->
   table_values (S (tbl_size (ttbl s t))) [] (t_items (ttbl s t)) = map (tline s) (tv t []).
 Proof.
   intro Hs. rewrite <- tv_ttbl_root. apply table_values_tv; [apply Nat.lt_succ_diag_r|]. rewrite tv_ttbl_root.
-  pose proof (proj2 (proj2 dsh_tv) t [] Hs) as Hp. unfold uvals, pvals in *. rewrite Forall_forall in *. intros x Hx.
-  apply in_map_iff in Hx as (y & <- & Hy). unfold tline. cbn [snd]. rewrite undot_tvalue. apply vplain_undot, Hp, Hy.
+  pose proof (proj2 (proj2 (dsh_tv P)) t [] Hs) as Hp. unfold uvals, pvals in *. rewrite Forall_forall in *. intros x Hx.
+  apply in_map_iff in Hx as (y & <- & Hy). unfold tline. cbn [snd]. rewrite undot_tvalue. apply (Hp y Hy).
 Qed.
 
 Lemma lines_dtext s (l : list (list key * value)) :
@@ -171,20 +174,20 @@ Proof.
   repeat first [rewrite <- app_assoc | progress cbn [app]]. reflexivity.
 Qed.
 
-Lemma dvisit_invisible s t p a b : dsh_tbl t = true -> p <> [] -> dvis (t, p, a) = false ->
+Lemma dvisit_invisible P s t p a b : dsh_tbl P t = true -> p <> [] -> dvis (t, p, a) = false ->
   visit_table (ttbl s t) (map (tkey s) p) a b = ([], b).
 Proof.
-  intros Hs Hp Hv. unfold visit_table. rewrite (children_dsh s t Hs). cbn [dvis] in Hv.
+  intros Hs Hp Hv. unfold visit_table. rewrite (children_dsh P s t Hs). cbn [dvis] in Hv.
   apply orb_false_iff in Hv as [-> Hv]. apply negb_false_iff, andb_true_iff in Hv as [Him Hn].
   unfold no_tv in Hn. destruct (tv t []) as [|x l] eqn:Ev; [|discriminate]. cbn [map].
   rewrite ttbl_fields. cbn [t_implicit]. rewrite Him. cbn [andb negb].
   destruct (map (tkey s) p) eqn:Ep; [destruct p; [congruence|discriminate]|]. reflexivity.
 Qed.
 
-Lemma dvisit_visible s t p a b : dsh_tbl t = true -> (p = [] \/ (dvis (t, p, a) = true /\ decor_some (t_decor t))) ->
+Lemma dvisit_visible Pv s t p a b : dsh_tbl Pv t = true -> (p = [] \/ (dvis (t, p, a) = true /\ decor_some (t_decor t))) ->
   fst (visit_table (ttbl s t) (map (tkey s) p) a b) = detxt s (t, p, a).
 Proof.
-  intros Hs Hp. unfold visit_table. rewrite (children_dsh s t Hs). rewrite lines_dtext. fold (dtext s t).
+  intros Hs Hp. unfold visit_table. rewrite (children_dsh Pv s t Hs). rewrite lines_dtext. fold (dtext s t).
   destruct Hp as [-> | [Hv [Hd1 Hd2]]].
   - cbn [map detxt]. destruct (match map _ (tv t []) with [] => true | _ => false end); reflexivity.
   - destruct p as [|k0 p0]; [cbn [map detxt]; destruct (match map _ (tv t []) with [] => true | _ => false end); reflexivity|].
@@ -210,4 +213,19 @@ Proof.
       { unfold no_tv in Hv. destruct (tv t []); exact Hv. }
       rewrite Hvis. rewrite EP. cbn [fst]. rewrite <- EP. rewrite <- ttbl_fields. cbv zeta in Hh. rewrite (Hh [x5b] [x5d]).
       unfold hdr_open, hdr_close. rewrite <- !app_assoc. reflexivity.
+Qed.
+
+(* the shape for a weaker condition on the values *)
+Lemma dsh_mono (P Q : value -> bool) : (forall v, P v = true -> Q v = true) ->
+  (forall v : value, True)
+  /\ (forall it, dsh_item P it = true -> dsh_item Q it = true)
+  /\ (forall t, dsh_tbl P t = true -> dsh_tbl Q t = true).
+Proof.
+  intro HPQ. apply tree_ind3; try (intros; exact I); try (intros; assumption).
+  - intros v _ H. cbn [dsh_item] in *. apply andb_true_iff in H as [H1 H2]. rewrite (HPQ v H1), H2. reflexivity.
+  - intros t IH H. exact (IH H).
+  - intros ts sp IH H. rewrite dsh_item_aot in *. rewrite forallb_forall in *. intros t Ht. specialize (H t Ht). apply andb_true_iff in H as [H1 H2].
+    rewrite H1. rewrite Forall_forall in IH. rewrite (IH t Ht H2). reflexivity.
+  - intros items d im dt pos sp IH H. rewrite dsh_tbl_eq in *. cbn [t_items] in *. rewrite forallb_forall in *. intros kv Hkv.
+    rewrite Forall_forall in IH. apply (IH kv Hkv), H, Hkv.
 Qed.
